@@ -278,6 +278,24 @@ impl Property for C05 {
         obs.note("stats", json!(w.stats));
         obs.note("rounds", json!(res.rounds));
         if !res.goal {
+            // known finding D18: a peer left in Request*Proof although it answered (TAU soft failure on a proof
+            // starting at the genesis block, then the request cannot be rebuilt because the stored tip caught up)
+            let stored_n: u64 = w.storage().get_tip_header().raw().number().unpack();
+            for p in w.connected_peers() {
+                if let Some(st) = w.c().peers.get_state(&p.index) {
+                    if let Some(rq) = st.get_prove_request() {
+                        if rq.get_last_header().header().number() <= stored_n && w.outbox_len() == 0 {
+                            let f = Failure::new(
+                                "honest-peer-left-waiting/proof-request-not-rebuilt-after-tau-soft-failure",
+                                format!("peer {} answered its proof request for #{} but stays in {} (stored tip {}); it will be disconnected by the 60 s timeout", p.index, rq.get_last_header().header().number(), st, stored_n),
+                            );
+                            tolerate(obs, f)?;
+                            obs.label("ended-by-known-finding");
+                            return Ok(());
+                        }
+                    }
+                }
+            }
             let s = w.storage();
             return Err(Failure::new(
                 if stored != tipn { "not-converged/tip" } else { "not-converged/filter-sync" },
@@ -382,7 +400,7 @@ pub fn goal(w: &World, tipn: u64, want_filter: bool) -> bool {
             return false;
         }
     }
-    !want_filter || (s.get_min_filtered_block_number() == tipn && s.get_earliest_matched_blocks().is_none() && w.c().peers.matched_blocks().read().unwrap().is_empty())
+    !want_filter || (s.get_min_filtered_block_number() >= tipn && s.get_earliest_matched_blocks().is_none() && w.c().peers.matched_blocks().read().unwrap().is_empty())
 }
 
 pub fn ban_class(reason: &str) -> String {
